@@ -154,19 +154,35 @@ func runC15(c *Ctx, ev *Evidence) ([]Violation, error) {
 	case smt.Unknown:
 		ev.Inconclusive("C15 writer-kind query undecided: " + r.Note)
 	case smt.Sat:
-		req := NativeReq{"op": "entrypoints", "policy": []NativeReq{{"op": "base", "name": "UGC"}, {"op": "flag", "name": "AllowComments", "val": true}, {"op": "flag", "name": "AddSpaceWhenStrippingTag", "val": true}},
-			"input": `<p>a<b>b</b><x>c</x><!--d--><img src="/i" alt="e"></p><script>f</script><a>g</a>`, "chunks": []int{3, 1}}
-		nres, nerr := RunNative(c.Repo, c.VerifDir, []NativeReq{req}, "")
+		// the symbolic difference is confirmed on probe documents: a mixed small
+		// one and size-parameterised ones (single tokens and token counts around
+		// typical buffer sizes), each through both writer kinds
+		pol := []NativeReq{{"op": "base", "name": "UGC"}, {"op": "flag", "name": "AllowComments", "val": true}, {"op": "flag", "name": "AddSpaceWhenStrippingTag", "val": true}}
+		inputs := []string{`<p>a<b>b</b><x>c</x><!--d--><img src="/i" alt="e"></p><script>f</script><a>g</a>`}
+		for _, n := range []int{255, 256, 511, 512, 1023, 1024, 4095, 4096, 4097, 8192, 65536, 70000} {
+			inputs = append(inputs, "<p>"+strings.Repeat("x", n)+"</p>", "<p><!--"+strings.Repeat("c", n)+"--><b title=\""+strings.Repeat("t", n)+"\">y</b></p>", strings.Repeat("<b>y</b>", n/8+1)+"<i>z</i>")
+		}
+		var reqs []NativeReq
+		for _, inp := range inputs {
+			reqs = append(reqs, NativeReq{"op": "entrypoints", "policy": pol, "input": inp, "chunks": []int{3, 1}})
+		}
+		nres, nerr := RunNative(c.Repo, c.VerifDir, reqs, "")
 		if nerr != nil {
 			return nil, nerr
 		}
-		s1, _ := nres[0]["ToWriter"].(string)
-		s2, _ := nres[0]["PlainWriter"].(string)
-		if s1 != s2 {
-			ev.AddReplayed(1)
-			viols = append(viols, Violation{Sig: "site=writer-kind", Detail: fmt.Sprintf("a destination without WriteString receives %q, one with WriteString %q", s2, s1), Replay: []NativeReq{req}})
-		} else {
-			ev.Inconclusive(fmt.Sprintf("C15: the loop body differs between the two writer kinds symbolically (token kind %d) but the native comparison agrees", r.Values[0].I))
+		confirmed := false
+		for i := range reqs {
+			s1, _ := nres[i]["ToWriter"].(string)
+			s2, _ := nres[i]["PlainWriter"].(string)
+			if s1 != s2 {
+				ev.AddReplayed(1)
+				confirmed = true
+				viols = append(viols, Violation{Sig: "site=writer-kind", Detail: fmt.Sprintf("for an input of %d bytes (%.40q...) a destination without WriteString receives %.60q..., one with WriteString %.60q...", len(inputs[i]), inputs[i], s2, s1), Replay: []NativeReq{reqs[i]}})
+				break
+			}
+		}
+		if !confirmed {
+			ev.Inconclusive(fmt.Sprintf("C15: the loop body differs between the two writer kinds symbolically (token kind %d) but the native comparison agrees on %d probe documents", r.Values[0].I, len(reqs)))
 		}
 	}
 	return viols, nil
